@@ -193,10 +193,18 @@ def replay_entry(act, op, P, a, entry, fill=" "):
     return bad
 
 
-def model_and_replay(rep: Report, only_edge=None):
-    cfg = "MC_Padding.cfg" if rep.tier == "quick" else "MC_Padding_full.cfg"
+def mc_cfg(rep: Report) -> str:
+    return "MC_Padding.cfg" if rep.tier == "quick" else "MC_Padding_full.cfg"
+
+
+def run_model(rep: Report):
+    return tlc.run("MC_Padding", mc_cfg(rep), workers=8, timeout=900, coverage=True, deadlock=False)
+
+
+def model_and_replay(rep: Report, only_edge=None, res=None):
+    cfg = mc_cfg(rep)
     if only_edge is None:
-        res = tlc.run("MC_Padding", cfg, workers=8, timeout=900, coverage=True, deadlock=False)
+        res = res or run_model(rep)
         rep.add_tlc(res)
         rep.extra["mc_padding"] = {"cfg": cfg, "states": res.distinct, "generated": res.generated,
                                    "wall_s": round(res.wall_s, 1)}
@@ -773,7 +781,8 @@ def traces_part(rep: Report, cases, canary=False):
             uniq[key]["n"] += 1
     items = list(uniq.values())
     canaries = trace_canaries() if canary else []
-    verdicts, st, tr = validate([u["trace"] for u in items] + [t for _, t in canaries])
+    verdicts, st, tr = validate([u["trace"] for u in items] + [t for _, t in canaries],
+                                batch=300 if len(items) < 5000 else 500)
     rep.states += st
     rep.transitions += tr
     for (what, _), vs in zip(canaries, verdicts[len(items):]):
@@ -843,7 +852,15 @@ def main(rep: Report, replay: dict | None) -> None:
         else:
             model_and_replay(rep)
         return
-    model_and_replay(rep)
+    # the model run (one JVM) overlaps with recording and validating the traces (other JVMs)
+    from concurrent.futures import ThreadPoolExecutor
+
+    with ThreadPoolExecutor(max_workers=1) as ex:
+        fut = ex.submit(run_model, rep)
+        rng = random.Random(rep.seed * 10007 + 5)
+        traces_part(rep, gen_cases(rng, rep.tier), canary=True)
+        res = fut.result()
+    model_and_replay(rep, res=res)
     rep.exhaustive = True
     rep.extra["exhaustive_space"] = (
         "padding API evaluations: AlignedPadding minimum -3..8 per axis x 3x3 alignments, ExactPadding "
@@ -851,5 +868,3 @@ def main(rep: Report, replay: dict | None) -> None:
         "(resolve-then-evaluate over " + ("the 2 corner terminals" if rep.tier == "quick" else "all 24 terminals")
         + "); the trace part is a sample"
     )
-    rng = random.Random(rep.seed * 10007 + 5)
-    traces_part(rep, gen_cases(rng, rep.tier), canary=True)
